@@ -10,7 +10,8 @@ LEVEL = "exploration"
 RULE = ("seeded force fields (.ff / polyply .itp blocks, 1-5 atoms, bonds/constraints/angles/dihedrals/impropers/"
         "pairs/exclusions/position_restraints, #ifdef meta, version-tagged multi-term dihedrals, multi-residue "
         "from_itp blocks) x residue graphs (linear/tree/ring, contiguous ids from 1,2,5,17) run through the real "
-        "gen_params; expectation computed from the abstract spec by pvmon.oracle.refparams. non-trivial = accepted "
+        "gen_params, and residue graphs over the blocks of the shipped libraries (-lib) with their default protein termini; "
+        "expectation computed from the abstract spec by pvmon.oracle.refparams. non-trivial = accepted "
         "case with >= 2 residues; distinct = hash of (files, graph)")
 ASSUMPTIONS = ["charge groups compared up to one constant per block instance",
                "interactions compared up to reversal of the atom tuple (writer canonicalisation)",
@@ -19,7 +20,7 @@ ASSUMPTIONS = ["charge groups compared up to one constant per block instance",
 CASE_TIMEOUT = 60
 WALL = {"quick": 900, "thorough": 7200}
 REQUIRED = {"residues_checked": 200, "block_interactions_checked": 200, "multi_residue_cases": 5,
-            "offset_cases": 20, "mods_cases": 5}
+            "offset_cases": 20, "mods_cases": 5, "library_cases": 100, "default_termini_atoms": 10}
 
 
 def plan(tier, seed):
@@ -28,6 +29,7 @@ def plan(tier, seed):
     cids += [["mods", i] for i in range(n // 12)]
     cids += [["dup", i] for i in range(n // 20)]
     cids += [["alias", i] for i in range(n // 10)]
+    cids += [["library", i] for i in range(n // 8)]
     return cids
 
 
@@ -45,15 +47,28 @@ def run_case(cid, rng, workdir):
         kw = {"layouts": ["ff", "itp+ff"]}
     if stratum == "alias":
         kw = {"layouts": ["ff", "itp+ff", "ff+itp"], "max_links": 0}
-    case = paramcase.build(rng, profile="full", **kw)
-    if stratum == "alias":
-        _alias(rng, case)
-    if stratum == "dup":
-        if not _add_duplicates(rng, case):
-            res["status"] = "rejected"
-            return res
-    ev = PC.evaluate(case, workdir)
-    res["sig"] = sig_of([case["files"], case["graph"]])
+    if stratum == "library":
+        # blocks of the force fields shipped with polyply (virtual sites, multi-atom exclusions, restraints, default
+        # protein termini), the parsed definitions translated for the same reference
+        if rng.random() < 0.25:
+            case = PC.build_library_case(rng, nmin=1, lib="martini3", prefer=PC.PROTEIN)
+        else:
+            case = PC.build_library_case(rng, nmin=1)
+        ev = PC.evaluate_library(case, workdir)
+        note(res, "libraries", case["lib"])
+        bump(res, "library_cases")
+        if ev["ref"] is not None:
+            bump(res, "default_termini_atoms", len(ev["ref"].get("termini_atoms", ())))
+    else:
+        case = paramcase.build(rng, profile="full", **kw)
+        if stratum == "alias":
+            _alias(rng, case)
+        if stratum == "dup":
+            if not _add_duplicates(rng, case):
+                res["status"] = "rejected"
+                return res
+        ev = PC.evaluate(case, workdir)
+    res["sig"] = sig_of([case["files"], case["graph"], case.get("lib")])
     res["sample"] = case["descr"]
     if ev["ref"] is None:
         res["status"] = "rejected"
